@@ -210,6 +210,12 @@ def new_model(fam, profile):
     M = model_class(fam)
     if fam in ("Daily", "Billing") and profile == "lowthr":
         return M(settings={"developer_mode": True, "silent_developer_mode": True, "cvrmse_threshold": 0.001})
+    if fam == "Billing" and profile == "weighted":
+        import contextlib
+        import io
+        from opendsm.eemeter.models.billing import BillingWeightedModel
+        with contextlib.redirect_stdout(io.StringIO()):
+            return BillingWeightedModel()
     if fam == "Hourly" and profile == "lowthr":
         return M(settings={"cvrmse_threshold": 1e-6, "pnrmse_threshold": 1e-6})
     if fam == "Hourly" and profile == "ghi":
@@ -228,6 +234,31 @@ def private_frame(o):
 
 def handout(o, attr="df"):
     return getattr(o, attr)
+
+
+def stored_frames(o):
+    """every frame the data object keeps (private frame, plain public attribute, cache of a cached property)"""
+    return {k: v for k, v in o.__dict__.items() if isinstance(v, (pd.DataFrame, pd.Series))}
+
+
+def accessors_of(o):
+    """names of the public attributes / properties of a data object through which a frame is handed out"""
+    import functools
+    names = []
+    for k in type(o).__mro__:
+        for n, v in k.__dict__.items():
+            if not n.startswith("_") and isinstance(v, (property, functools.cached_property)) and n not in names:
+                names.append(n)
+    names += [n for n in o.__dict__ if not n.startswith("_") and n not in names]
+    out = []
+    for n in names:
+        try:
+            v = getattr(o, n)
+        except Exception:  # noqa
+            continue
+        if isinstance(v, (pd.DataFrame, pd.Series)):
+            out.append(n)
+    return sorted(out, key=lambda n: (n != "df", n))
 
 
 def construct(spec, args):
@@ -590,6 +621,10 @@ class Snap:
 
     def _obj(self, key, o):
         self.d[key + ":frame"] = digest(private_frame(o))
+        pf = private_frame(o)
+        for n, v in stored_frames(o).items():            # caches of cached properties, further stored frames
+            if v is not pf:
+                self.d[key + ":frame:" + n] = digest(v)
         self.d[key + ":warnings"] = warn_digest(o.warnings)
         self.d[key + ":disqualification"] = warn_digest(o.disqualification)
 
@@ -699,6 +734,7 @@ def run_history(job):
                 rec["dataset"] = name
                 call = model_class(ofam).__name__ + ".fit"
                 other = new_model(ofam, prof if not (ofam == "Hourly" and prof in ("ghi", "supp") and not OBJ[name]["ghi"]) else "default")
+                call = type(other).__name__ + ".fit"
                 d = OBJ[name]["obj"]
                 rec["data_dq_before"] = len(d.disqualification)
                 try:
@@ -727,7 +763,7 @@ def run_history(job):
                     oo = others[op[1] % len(others)]
                     onames = [n for n in datasets_of(oo["fam"]) if OBJ[n]["role"] == "reporting"]
                     nm = onames[op[2] % len(onames)]
-                    call = model_class(oo["fam"]).__name__ + ".predict (another object)"
+                    call = type(oo["obj"]).__name__ + ".predict (another object)"
                     rec["dataset"] = nm
                     try:
                         predict_call(oo["fam"], oo["obj"], OBJ[nm]["obj"])
@@ -760,19 +796,26 @@ def run_history(job):
                 if o is None:
                     rec["skipped"] = True
                 else:
-                    attr = "df"
+                    accs = accessors_of(o)
+                    attr = accs[(op[2] if len(op) > 2 else 0) % len(accs)]
                     call = cls + "." + attr
                     rec["target"] = key
+                    rec["attr"] = attr
                     h = handout(o, attr)
                     pf = private_frame(o)
-                    alias = h is pf
+                    again = handout(o, attr)
+                    alias = (h is again) or any(h is v for v in stored_frames(o).values())
                     rec["alias"] = bool(alias)
-                    if digest(h) != digest(pf):
+                    if digest(h) != digest(again):
+                        fail({"call": call, "broken": "two accesses hand out different content"},
+                             "%s.%s: two successive accesses differ" % (cls, attr), step)
+                    if attr == "df" and digest(h) != digest(pf):
                         fail({"call": call, "broken": "hand-out differs from the stored frame"},
                              "%s.%s does not equal the stored frame" % (cls, attr), step)
                     if alias:
                         fail({"call": call, "broken": "hand-out is not a copy"},
-                             "%s.%s returns the object's own frame (mutating it changes the data object)" % (cls, attr), step)
+                             "%s.%s hands out a frame the object keeps (every access returns the same object; mutating it "
+                             "changes the data object)" % (cls, attr), step)
                     for k2, H in enumerate(hands):
                         if H["v"] is h and not alias:
                             fail({"call": call, "broken": "two hand-outs are the same frame"},
@@ -850,6 +893,12 @@ def run_history(job):
                          rec["dataset"], ",".join(cause)), step)
         for k in unexpected:
             part = k.split(":")
+            if part[0] in ("O", "L") and "frame" in part:
+                i = part.index("frame")
+                fail({"call": call, "broken": "data object modified", "part": "frame"},
+                     "%s changed the frame %s of data object %s" % (
+                         call, ("." + part[i + 1]) if len(part) > i + 1 else "(private)", ":".join(part[:i])), step)
+                continue
             if part[0] == "R" and part[-1] == "meta":
                 R = raws[int(part[1])]
                 fail({"call": call, "broken": "caller frame modified", "how": "index freq attribute set"},
